@@ -69,6 +69,16 @@ func (b *builder) text(plain []string) string {
 
 func (b *builder) desc() string { return b.text(descPool) }
 
+// a dedicated time field: usually inside the range the exporter declares for its well-known attribute (0..max),
+// one time in three at the bound or beyond it (the setters do not validate)
+func (b *builder) fieldVal(inside, max int) int {
+	if !b.r.Chance(1, 3) {
+		return inside
+	}
+	b.tag("wellknown-at-or-beyond-declared-bounds")
+	return []int{max, max + 1, 2 * max, max - 1, -1, -max}[b.r.Below(6)]
+}
+
 func (b *builder) floatVal() float64 {
 	pool := []float64{0, 1, -1, 0.5, 0.1, 2, 10, 100, -40, 273.15, 0.001, 1e6, 3.75, -0.25, 65535}
 	if b.r.Chance(1, 5) { // boundaries: 2^31, 2^32, 2^53, 2^63, 2^64, 1e19 and negatives
@@ -354,6 +364,10 @@ func (b *builder) decorate(sig acmelib.Signal) {
 	sig.SetDesc(b.desc())
 	if b.r.Chance(1, 4) {
 		sig.SetStartValue([]float64{1, 2.5, 100, 0.125}[b.r.Below(4)])
+		if b.r.Chance(1, 3) { // at and beyond the bounds the exporter declares for GenSigStartValue (0..10000)
+			sig.SetStartValue([]float64{10000, 10000.5, 10001, 20000, -1, -2.5, 9999.875, 1e6}[b.r.Below(8)])
+			b.tag("wellknown-at-or-beyond-declared-bounds")
+		}
 		b.tag("sig-start-value")
 	}
 	if b.r.Chance(1, 4) {
@@ -556,14 +570,14 @@ func Build(r *lib.Rng) (*acmelib.Bus, map[string]int) {
 			}
 			msg.SetDesc(b.desc())
 			if r.Chance(1, 3) {
-				msg.SetCycleTime(1 + r.Below(5000))
+				msg.SetCycleTime(b.fieldVal(1+r.Below(5000), 3600000))
 				b.tag("msg-cycle-time")
 			}
 			if r.Chance(1, 4) {
-				msg.SetDelayTime(1 + r.Below(1000))
+				msg.SetDelayTime(b.fieldVal(1+r.Below(1000), 1000))
 			}
 			if r.Chance(1, 4) {
-				msg.SetStartDelayTime(1 + r.Below(10000))
+				msg.SetStartDelayTime(b.fieldVal(1+r.Below(10000), 100000))
 			}
 			if r.Chance(1, 3) {
 				msg.SetSendType(acmelib.MessageSendType(r.Below(5)))
